@@ -88,6 +88,8 @@ pub struct Shared {
 	pub pings: Mutex<u32>,
 	/// every ordinary write takes this long on the (paused) clock: a transport with a finite rate
 	pub send_cost_ms: Mutex<u64>,
+	/// Some(channel to the client): every call written is answered at once with its own method name as the result
+	pub auto_answer: Mutex<Option<mpsc::UnboundedSender<Incoming>>>,
 }
 
 pub struct MockSender {
@@ -114,6 +116,14 @@ impl TransportSenderT for MockSender {
 					let cost = *shared.send_cost_ms.lock();
 					if cost > 0 {
 						tokio::time::sleep(std::time::Duration::from_millis(cost)).await;
+					}
+					let echo = shared.auto_answer.lock().clone();
+					if let Some(tx) = echo {
+						if let Ok(v) = serde_json::from_str::<Value>(&msg) {
+							if !v["id"].is_null() && v["method"].is_string() {
+								let _ = tx.send(Incoming::Text(serde_json::json!({"jsonrpc":"2.0","id":v["id"],"result":v["method"]}).to_string()));
+							}
+						}
 					}
 					shared.wire.lock().push(msg);
 					Ok(())
@@ -247,6 +257,7 @@ impl MockClient {
 			ping_fail: Mutex::new(None),
 			pings: Mutex::new(0),
 			send_cost_ms: Mutex::new(0),
+			auto_answer: Mutex::new(None),
 		});
 		let (tx, rx) = mpsc::unbounded_channel();
 		let sender = MockSender { shared: shared.clone() };
